@@ -12,7 +12,7 @@ from .lib import (Out, Proxy, ProtoError, TcpOrigin, addr_v5, base_cfg, client_s
 B_CLOSE = 3.0
 USER, PASS = "alice", "s3cret"
 
-BEHAVIOURS = ["ok", "delay", "refuse", "refuseverbose", "garbage", "closebefore", "closeafter", "resetafter", "partial"]
+BEHAVIOURS = ["ok", "delay", "refuse", "refuseverbose", "refuseintl0", "refuseintl1", "refuseintl2", "refuseintl3", "garbage", "closebefore", "closeafter", "resetafter", "partial"]
 
 
 class FakeUpstreams:
@@ -59,7 +59,13 @@ class FakeUpstreams:
         if beh == "refuseverbose" and proto == "http":
             # a refusal with a long head: the proxy quotes it in its own error body (bodies over 1 kB)
             fail_bytes = b"HTTP/1.1 403 Forbidden\r\n" + b"".join(b"X-Reason-%d: %s\r\n" % (i, b"policy " * 6) for i in range(30)) + b"Content-Length: 0\r\n\r\n"
-        if beh in ("refuse", "refuseverbose"):
+        if beh.startswith("refuseintl") and proto == "http":
+            # a localised refusal: long non-ASCII (UTF-8) reason phrase and realm, shifted byte by byte so that whatever the proxy
+            # cuts, quotes or measures by bytes lands inside a multi-byte character for one of the four
+            pad = "x" * int(beh[-1])
+            realm = "Для доступа к этому ресурсу требуется авторизация на прокси-сервере организации. 需要代理身份验证。 " * 6
+            fail_bytes = ("HTTP/1.1 407 %sТребуется аутентификация прокси\r\nProxy-Authenticate: Basic realm=\"%s\"\r\nContent-Length: 0\r\n\r\n" % (pad, realm)).encode("utf-8")
+        if beh.startswith("refuse"):
             w.write(fail_bytes)
             await w.drain()
             self.log(proto, host, "refused")
